@@ -144,3 +144,10 @@ class ScoreColumnMulti(BaseEstimator):
     def predict_proba(self, X):
         s = self._col(X, "predict_proba")
         return np.column_stack([1 - s, s])
+
+
+class ExactTableW(ExactTable):
+    """ExactTable whose fit takes its weights under the name ``w`` (for ``sample_weight_name='w'``)."""
+
+    def fit(self, X, y, w=None):  # noqa: D102
+        return ExactTable.fit(self, X, y, sample_weight=w)
